@@ -14,7 +14,7 @@ impl Prop for C17 {
         "C17"
     }
     fn rule(&self) -> String {
-        "cases = 1-3 prepared statements with 1-6 parameters and a history of 1-12 rounds; a round sends 0-5 COM_STMT_SEND_LONG_DATA chunks (sizes 0, 1, 300, 70000, random; one >= 2^24-byte chunk in the enumerated cases) addressed to generated (statement, parameter) targets, possibly for several statements at once, (occasionally followed by a re-prepare that hands out the same id and parameter count again, which must discard what is pending), then executes one statement whose long-data parameters are omitted inline (as clients do) while the others are sent inline incl. NULLs. One enumerated history executes a single statement more than 65536 (thorough: 131072) times - a streamed value first, inline values afterwards - so that 'delivered to exactly one execution' is also checked at distances where narrow counters wrap. Oracle: reference model pending[stmt][param]; at an execution the addressed parameters arrive as bytes equal to the in-order concatenation, the others exactly as encoded; afterwards the statement's pending data is empty (the next execution sees its inline value); other statements' pending data is untouched. Non-trivial = >= 2 chunks for one target, or long data pending for another statement across an execution, or an execution without long data after one with.".into()
+        "cases = 1-3 prepared statements with 1-6 parameters and a history of 1-12 rounds; a round sends 0-5 COM_STMT_SEND_LONG_DATA chunks (sizes 0, 1, 300, 70000, random; one >= 2^24-byte chunk in the enumerated cases) addressed to generated (statement, parameter) targets, possibly for several statements at once, (occasionally followed by a re-prepare that hands out the same id and parameter count again, which must discard what is pending), then executes one statement whose long-data parameters are omitted inline (as clients do) while the others are sent inline incl. NULLs. One enumerated history executes a single statement more than 65536 (thorough: 131072) times - a streamed value first, inline values afterwards - so that 'delivered to exactly one execution' is also checked at distances where narrow counters wrap; another streams one parameter in more than 65536 (thorough: 200000) one-byte and empty chunks. Oracle: reference model pending[stmt][param]; at an execution the addressed parameters arrive as bytes equal to the in-order concatenation, the others exactly as encoded; afterwards the statement's pending data is empty (the next execution sees its inline value); other statements' pending data is untouched. Non-trivial = >= 2 chunks for one target, or long data pending for another statement across an execution, or an execution without long data after one with.".into()
     }
     fn assumptions(&self) -> Vec<String> {
         vec!["long data is only addressed to non-NULL parameters of string type, as client libraries do".into()]
@@ -140,6 +140,15 @@ impl Prop for C17 {
             });
         }
         v.push(Case { stmts: vec![(3, 2)], ops, tail_unbound: None });
+        // one parameter streamed in more chunks than a 16-bit counter holds (1-byte and empty chunks)
+        let nch = match tier {
+            Tier::Quick => 65_536 + 40,
+            Tier::Thorough => 200_000,
+        };
+        let mut ops: Vec<Op> = (0..nch).map(|k| Op::Long { stmt: 0, param: 1, data: if k % 97 == 5 { vec![] } else { vec![b'a' + (k % 26) as u8] } }).collect();
+        ops.push(Op::Exec { stmt: 0, params: vec![Param { coltype: T_LONG, unsigned: false, value: PVal::Int(9) }, Param { coltype: T_BLOB, unsigned: false, value: PVal::LongData }], rebind: true, take: None });
+        ops.push(Op::Exec { stmt: 0, params: vec![Param { coltype: T_LONG, unsigned: false, value: PVal::Int(10) }, Param { coltype: T_BLOB, unsigned: false, value: PVal::Bytes(b"inline".to_vec()) }], rebind: true, take: None });
+        v.push(Case { stmts: vec![(4, 2)], ops, tail_unbound: None });
         v
     }
     fn exec(&self, case: &Case) -> Exec {
